@@ -693,7 +693,18 @@ class Fn:
             raise TranslationError('call to untranslated function ' + nm)
         if fi.nonsimple:
             raise TranslationError('call to non-simple function %s inside an expression' % nm)
-        return '(' + ' '.join([fi.out] + fi.field_args_for(self) + self.call_args(fi, args)) + ')'
+        fa14_ = fi.field_args_for(self)
+        if self.ctx.cfg.get('other_objects') and c is not None and c.get('kind') == 'MemberExpr' and c.get('inner'):
+            # C14 ("other_objects"): `param.f()` inside an EXPRESSION (data.pvIsInternal()): the pure translated f reads the parameter's
+            # field set (<param>_<field>), not the fields of *this
+            ob14_ = skip_wrappers(c['inner'][0])
+            while ob14_.get('kind') == 'ImplicitCastExpr' and ob14_.get('inner'): ob14_ = skip_wrappers(ob14_['inner'][0])
+            if ob14_.get('kind') == 'DeclRefExpr' and ob14_.get('referencedDecl', {}).get('name') in self.ctx.cfg['other_objects']:
+                P14_ = ob14_['referencedDecl']['name']
+                if fi.out_fields():
+                    raise TranslationError('call of %s on object %s inside an expression writes fields' % (nm, P14_))
+                fa14_ = [(f[len(P14_) + 1:] if f.startswith(P14_ + '_') else (P14_ + '_' + f if (P14_ + '_' + f) in self.ctx.fields else f)) for f in fa14_]
+        return '(' + ' '.join([fi.out] + fa14_ + self.call_args(fi, args)) + ')'
 
     def accessor_target(self, nm, args):
         fld, idx_node, pnames = self.ctx.accessors[nm]
@@ -806,6 +817,19 @@ class Fn:
         raise TranslationError('member object method %s as a statement' % meth)
 
     def opcall(self, n):
+        # C14 ("addr_fields": {"mInternalItems": "mInternalAddr"}): `&member` through an overloaded operator& (ObjectBuffer) of a configured
+        # member OBJECT is the value of the configured (read-only ghost) field holding that address; on a parameter object: "<param>_<field>"
+        if self.ctx.cfg.get('addr_fields') and len(n.get('inner', [])) == 2:
+            try:
+                opa_, _ = self.callee_name(n)
+            except TranslationError:
+                opa_ = None
+            obja_ = skip_wrappers(n['inner'][1])
+            while obja_.get('kind') in ('ImplicitCastExpr', 'ParenExpr') and obja_.get('inner'):
+                obja_ = skip_wrappers(obja_['inner'][0])
+            if opa_ == 'operator&' and obja_.get('kind') == 'MemberExpr' and obja_.get('name') in self.ctx.cfg['addr_fields']:
+                fake_ = dict(obja_); fake_['name'] = self.ctx.cfg['addr_fields'][obja_['name']]
+                return self.member(fake_)
         # C09: `mArr[i]` where mArr is a configured "array" field of class type (momo::Array::operator[]) -> (mArr i)
         if len(n.get('inner', [])) == 3:
             try:
@@ -1086,6 +1110,13 @@ class Fn:
             try:
                 if self.callee_name(n)[0] == 'operator=':
                     acc.add(self.lhs_name(n['inner'][1]))
+            except TranslationError:
+                pass
+        if k in ('CXXMemberCallExpr', 'CallExpr') and self.ctx.cfg.get('effect_prims'):   # C08: the effect fields of an effect_prims call are written
+            try:
+                ep8_ = self.ctx.cfg['effect_prims'].get(self.callee_name(n)[0])
+                if ep8_ is not None:
+                    acc.update(ep8_.get('effects', {}).keys())
             except TranslationError:
                 pass
         if k == 'CXXOperatorCallExpr' and self.ctx.cfg.get('opaque_types') and len(n.get('inner', [])) == 2 \
@@ -2059,6 +2090,27 @@ class Fn:
                         raise TranslationError('effect_assign: %s is not a configured field' % ea_['field'])
                     self.note_write(ea_['field'])
                     return f"let {ea_['field']} := (" + ' '.join([ea_['fn'], ea_['field']] + ea_['args']) + f') in\n{rest()}'
+                if nm == 'operator=' and self.ctx.cfg.get('opaque_types') and len(s0['inner']) == 3 and self.ctx.cfg.get('effect_prims'):
+                    # C08: "effect_prims": {"Remove": {"ret": "remove_ret", "effects": {"mValueCount": "cnt_dec", ...}}}: `x = Remove(args);` where Remove
+                    # is a member whose modelled effect is: each listed field f := g f, and the opaque result is (ret args)
+                    rhs8_ = skip_wrappers(s0['inner'][2])
+                    while rhs8_.get('kind') in ('ImplicitCastExpr', 'MaterializeTemporaryExpr', 'CXXBindTemporaryExpr', 'ExprWithCleanups') and rhs8_.get('inner'):
+                        rhs8_ = skip_wrappers(rhs8_['inner'][0])
+                    if rhs8_.get('kind') in ('CXXMemberCallExpr', 'CallExpr'):
+                        try:
+                            nm8_, _c8 = self.callee_name(rhs8_)
+                        except TranslationError:
+                            nm8_ = None
+                        ep8_ = self.ctx.cfg['effect_prims'].get(nm8_)
+                        if ep8_ is not None:
+                            val8_ = '(' + ' '.join([ep8_['ret']] + [self.e(a_) for a_ in rhs8_['inner'][1:]]) + ')'
+                            pre8_ = ''
+                            for f8_, g8_ in ep8_.get('effects', {}).items():
+                                if f8_ not in self.ctx.fields:
+                                    raise TranslationError('effect_prims: %s is not a configured field' % f8_)
+                                self.note_write(f8_)
+                                pre8_ += f'let {f8_} := ({g8_} {f8_}) in\n'
+                            return self.assign_to(s0['inner'][1], val8_, lambda: pre8_ + rest())
                 if nm == 'operator=' and self.ctx.cfg.get('opaque_types') and len(s0['inner']) == 3:   # C06: assignment between opaque (class-type) values
                     return self.assign_to(s0['inner'][1], self.e(s0['inner'][2]), rest)
                 if nm == 'operator++' and self.ctx.cfg.get('opaque_types') and len(s0['inner']) == 2 \
